@@ -29,7 +29,7 @@
    ENC/DLV/DEC, which also execute the extracted decoder on the implementation's bytes). *)
 From FV Require Import Model.Base Model.Sink Model.Codes Model.Rice Model.Predict Model.Component Model.Encoder
   Model.Flac Model.Ctor Proofs.Lossless Proofs.BitRead Proofs.BitWrite Proofs.CtorP Proofs.ParseResidual
-  Proofs.ParseSubframe Proofs.DecodeSubframe Proofs.EncoderVerifies Proofs.CountBits Proofs.DecodeFrame Proofs.EncodeFrameE2E Proofs.DecodeStream Proofs.EncodeTotal Proofs.BlockHyps.
+  Proofs.ParseSubframe Proofs.DecodeSubframe Proofs.EncoderVerifies Proofs.CountBits Proofs.DecodeFrame Proofs.EncodeFrameE2E Proofs.DecodeStream Proofs.EncodeTotal Proofs.BlockHyps Proofs.ParsePrecomputed.
 Local Open Scope Z_scope.
 
 (* whatever the estimators answer, the subframe the encoder returns decodes to the block it was
@@ -267,3 +267,23 @@ Theorem C01_stream_end_to_end_no_lpc :
       decode_stream bytes = Some (mkSinfo bs bs minf maxf rate channels bps (N.of_nat total) (md5 (md5_input bps samples)), samples).
 Proof. exact stream_end_to_end_no_lpc. Qed.
 Print Assumptions C01_stream_end_to_end_no_lpc.
+
+(* "single- and multi-threaded encoding": the stream the multi-threaded encoder assembles (the frames of encode_blocks - C05 -
+   each with its bit stream precomputed in a worker) is written as bytes that the independent strict decoder turns back into
+   the given STREAMINFO and exactly the input samples, and that pass the strict validator *)
+Theorem C01_par_stream_end_to_end :
+  forall (ent : N -> N -> N -> N) (qlpc : N -> N -> qparams) (md5 : list N -> list N)
+         cfg rate channels bps bs samples s sp bytes (total : nat),
+    encode_stream ent qlpc md5 cfg rate channels bps bs samples = Ok s ->
+    precompute_stream s = Ok sp -> stream_bytes sp = Ok bytes ->
+    cfg_max_parameter cfg <= 14 -> In bps [8; 12; 16; 20; 24] -> 1 <= rate <= 96000 -> 1 <= channels <= 8 ->
+    16 <= bs <= Generated.c_MAX_BLOCK_SIZE ->
+    length samples = (total * N.to_nat channels)%nat -> N.of_nat total < 2 ^ 36 ->
+    length (md5 (md5_input bps samples)) = 16%nat -> Forall (fun x => x < 256) (md5 (md5_input bps samples)) ->
+    (forall j b, nth_error (chunks (N.to_nat (bs * channels)) samples) j = Some b ->
+                 block_hyps qlpc cfg (N.of_nat j) channels bps b (length b / N.to_nat channels)) ->
+    (exists minf maxf,
+       decode_stream bytes = Some (mkSinfo bs bs minf maxf rate channels bps (N.of_nat total) (md5 (md5_input bps samples)), samples))
+    /\ strict_ok bytes = true.
+Proof. exact par_stream_end_to_end. Qed.
+Print Assumptions C01_par_stream_end_to_end.
